@@ -395,6 +395,9 @@ func (s *Snap) Value(p PosKey) *big.Rat {
 	if !ok || v == nil || !v.HasInfo {
 		return new(big.Rat)
 	}
+	if d.Shares.IsZero() {
+		return new(big.Rat) // a position without shares owns nothing
+	}
 	S := ratDec(decAmount(v.Info.TotalDelegatorShares, p.Denom))
 	if S.Sign() == 0 {
 		return s.ValTokens(p.Val, p.Denom)
